@@ -39,11 +39,25 @@ RULE = (
     "keyword domains as single), and Hypothesis op sequences (<=20 ops, 0..7 children, the list read once or "
     "again before every call, the container's focus moved between calls), compared with a built-in list "
     "(contents, errors, result, modified callback); after every call the container's contents satisfy the "
-    "focus invariant and hold the widgets the widget list holds. Every case is "
+    "focus invariant and hold the widgets the widget list holds; reentrant: histories in which the listeners of "
+    "the modified callback (1..5, connected in order to a SimpleListWalker / SimpleFocusListWalker, called in order "
+    "by the one callback of a MonitoredList / MonitoredFocusList) count their notifications, copy the list each "
+    "time, and - those with a script - perform the next list operation of their script on the list each time they "
+    "are notified (of a top-level call or of a call made by a listener, not deeper): exhaustive enumeration of "
+    "every kind of call (29: changing the contents, leaving them, failing) x every kind of call made by a listener "
+    "during its notification x the editing listener's place (alone, first or last of two, middle of three) x the "
+    "four classes, and Hypothesis histories (<=10 top-level calls, scripts of <=5 calls, several editing "
+    "listeners); the built-in list receives every call, top-level and nested, in the order made; for every call "
+    "at every depth: same error, same contents, same result, every listener notified at least once per successful "
+    "content-changing call and at most once per successful call (this call and those nested in it), never by a "
+    "failed one, and - if the contents changed - last notified when the list held what it holds when the call "
+    "returns; when a top-level call returns: the focus invariant, and the focus rule composed over the calls in the "
+    "order made. Every case is "
     "passed through JSON before use, so generated and replayed cases are the same values. Non-trivial: the "
     "operation's slice touches the focus cell, has a non-unit or negative step, or is empty/reversed "
     "(single); a sequence with >=3 content-changing ops of which one is a slice op (seq, legacy sequences); a "
-    "content-changing op on a container that has children (legacy single ops)."
+    "content-changing op on a container that has children (legacy single ops); a call made by a listener succeeded "
+    "and changed the contents, judged on a reference list that calls back after every successful mutator (reentrant)."
 )
 ASSUMPTIONS = [
     "CPython's built-in list is the reference for contents and exception types (list.sort is stable, also "
@@ -60,6 +74,12 @@ ASSUMPTIONS = [
     "clauses to the container's contents behind them; how (type, amount) and box-column lists longer or shorter "
     "than the children map onto the children is not asserted; new (type, amount) entries are valid old or new "
     "type names with non-negative amounts, nothing is rendered",
+    "a modified listener may perform list operations on the list it listens to (the callers the walkers document: "
+    "handlers that trim or fill in the list); such a call is a call of the history like any other: the callback "
+    "clauses apply to it, its own notifications are delivered before it returns, inside those of the enclosing call. "
+    "Nothing is asserted about the focus index as read from inside a callback, nor about the focus-changed callback "
+    "of a call during which a listener edited the list; listeners are not connected or disconnected during a "
+    "history; a listener that edits does so a bounded number of times (its script), so every history ends",
 ]
 
 
@@ -659,7 +679,292 @@ def _check_legacy(case, cls, attr, kind, n, ops):
                 raise Violation("container-holds-list", f"{cls}.{attr} {op}: the list holds {_Short(model)}, the {cls} {_Short(now)}")
 
 
-SUBS = {"single": check_single, "seq": check_seq, "legacy": check_legacy}
+# ---------------------------------------------------------------------------------------------
+# histories in which the modified callback itself edits the list (calls nested in calls)
+
+MAX_NEST = 2  # a listener edits the list while notified of a top-level call or of an edit nested in one, not deeper
+_REENTRANT_MARK = "[after an edit made from inside the modified callback]"
+_MUTATORS = ("__setitem__", "__delitem__", "__iadd__", "__imul__", "append", "extend", "insert", "pop", "remove",
+             "reverse", "sort", "clear")
+
+
+class _EndHistory(BaseException):
+    """raised through the notifications under way to end a history after a recorded (deferred) finding"""
+
+
+class _RefList(list):
+    """The obvious reference: a built-in list that calls cb() after every successful mutating call.  Only used to
+    profile a case (which nested edits take place) before it is run against urwid; it also keeps the oracle
+    honest: every clause below holds for it by construction."""
+
+    cb = staticmethod(lambda: None)
+
+
+def _ref_mutator(name):
+    plain = getattr(list, name)
+
+    def method(self, *args, **kwargs):
+        rval = plain(self, *args, **kwargs)
+        self.cb()
+        return rval
+
+    return method
+
+
+for _name in _MUTATORS:
+    setattr(_RefList, _name, _ref_mutator(_name))
+
+
+def _focus_after(old, new, fi, op):
+    """acceptable focus values after one successful call (the rule of expected_focus, total)"""
+    if op[0] == "setfocus":
+        return {op[1]} if new else {None}
+    if not new:
+        return {None}
+    if not old or fi is None:
+        return set(range(len(new)))
+    return expected_focus(old, new, fi, op)
+
+
+def _run_reentrant(case, cls=None):
+    """Interpret a re-entrant history; returns the profile of what took place.
+    case: {"cls", "n", "focus", "handlers": [script, ...], "ops": [...]}.  Every handler is a listener of the
+    list's modified callback (connected in the order given; MonitoredList / MonitoredFocusList take one callback,
+    which calls them in that order).  A listener counts its notifications and copies the list each time; one with
+    a script also performs the next op of its script on the list each time it is notified (while ops are left and
+    the call it is notified of is nested less than MAX_NEST deep).  The model list receives every call, top-level
+    and nested, in the order the calls are made."""
+    cls = cls or case["cls"]
+    n, ops = case["n"], case["ops"]
+    if cls == "REF":
+        items = [Item(i) for i in range(n)]
+        real = _RefList(items)
+    else:
+        real, items = _mk_target(cls, n)
+    model = list(items)
+    focus_cls = cls in ("MFL", "SFLW")
+    listeners = [{"count": 0, "mirror": list(items), "script": list(s), "pos": 0} for s in case["handlers"]]
+    stack = []  # one frame per call in progress
+    counter = itertools.count(100)
+    prof = {"calls": 0, "nested_changed": 0, "nested_failed": 0, "nested_nochange": 0, "depth": 0, "deferred": None}
+    fstate = {"exp": None, "fc": [], "broken": False}
+
+    def fire(i):
+        ls = listeners[i]
+        ls["count"] += 1
+        ls["mirror"] = list.__getitem__(real, slice(None))
+        if ls["pos"] < len(ls["script"]) and len(stack) <= MAX_NEST:
+            op = ls["script"][ls["pos"]]
+            ls["pos"] += 1
+            call(op)
+
+    def dispatch():
+        for i in range(len(listeners)):
+            fire(i)
+
+    if focus_cls and _initial_focus(case) is not None:
+        real.focus = _initial_focus(case)  # before anybody listens: not part of the history
+
+    def defer(clause, message):
+        # the history goes on (the callback clauses are still checked); the first such finding is raised at the end
+        if prof["deferred"] is None:
+            prof["deferred"] = (clause, f"{message} {_REENTRANT_MARK}")
+
+    def call(op):
+        """one call, top-level or made by a listener; returns nothing, adds its totals to the enclosing frame"""
+        if op[0] == "setfocus":
+            if not focus_cls:
+                return
+            op = op[:2]
+        if op[0] == "imul" and op[1] > 1 and len(model) > 30:
+            return  # keep the lists small
+        depth = len(stack)
+        op = resolve_op(op, len(model), real.focus if focus_cls else None)
+        fresh = {}
+        base = next(counter) * 10
+
+        def new_item(k):
+            return fresh.setdefault(k, Item(base + k))
+
+        prof["calls"] += 1
+        prof["depth"] = max(prof["depth"], depth)
+        old = list(model)
+        fi_before = real.focus if focus_cls else None
+        if depth == 0:
+            fstate["exp"] = {fi_before}
+            fstate["broken"] = False
+            del fstate["fc"][:]
+        exc_m = exc_r = exc_r_obj = None
+        ret_m = ret_r = None
+        if op[0] == "setfocus":
+            in_range = isinstance(op[1], int) and 0 <= op[1] < len(model)
+            exc_m = None if in_range or not model else IndexError
+        else:
+            try:
+                ret_m = apply_op(model, op, new_item)
+            except Exception as e:  # noqa: BLE001
+                exc_m = type(e)
+        changed = len(old) != len(model) or any(a is not b for a, b in zip(old, model))
+        if exc_m is None and focus_cls and fstate["exp"] is not None:
+            fstate["exp"] = set().union(*(_focus_after(old, model, fi, op) for fi in fstate["exp"]))
+        if depth:
+            key = "nested_failed" if exc_m is not None else "nested_changed" if changed else "nested_nochange"
+            prof[key] += 1
+        counts = [ls["count"] for ls in listeners]
+        frame = {"changed": 0, "ok": 0, "calls": 0}
+        stack.append(frame)
+        try:
+            ret_r = apply_op(real, op, new_item)
+        except Violation:
+            raise
+        except Exception as e:  # noqa: BLE001  (_EndHistory is not an Exception)
+            exc_r, exc_r_obj = type(e), e
+        finally:
+            stack.pop()
+        what = f"{op} on {_Short(old)}" + (f" (made by a listener, nesting depth {depth})" if depth else "")
+        deferred_error = False
+        if exc_m is not exc_r:
+            if exc_r is not None and exc_m is None:
+                msg = f"{what}: list accepts, monitored list raised {exc_r_obj!r}"
+                if focus_cls and (frame["calls"] or depth):
+                    # a focus list, and either listeners edited it during this call or this call is such an edit
+                    defer("same-errors", msg)
+                    deferred_error = True
+                    fstate["exp"] = None
+                    fstate["broken"] = True
+                else:
+                    raise Violation("same-errors", msg) from exc_r_obj
+            else:
+                raise Violation("same-errors", f"{what}: list raised {exc_m}, monitored list raised {exc_r}")
+        cur = list.__getitem__(real, slice(None))
+        if deferred_error and (len(cur) != len(model) or any(a is not b for a, b in zip(cur, model))):
+            raise _EndHistory  # the call raised before it did its work: list and model part here
+        if len(cur) != len(model) or any(a is not b for a, b in zip(cur, model)):
+            raise Violation(
+                "same-contents",
+                f"{what}, {frame['calls']} call(s) made by listeners meanwhile: list gives {_Short(model)}, "
+                f"monitored list holds {_Short(cur)}",
+            )
+        if ret_m is not ret_r and not deferred_error:
+            raise Violation("same-result", f"{what}: list returned {ret_m}, monitored list {ret_r}")
+        # the callback: once per successful call that changes the contents - this call and those nested in it
+        lo = frame["changed"] + (1 if exc_m is None and changed else 0)
+        hi = frame["ok"] + (1 if exc_m is None else 0)
+        for i, ls in enumerate(listeners):
+            got = ls["count"] - counts[i]
+            if exc_m is not None and got:
+                raise Violation("modified-on-failure", f"{what} failed with {exc_m.__name__} but listener {i} was notified")
+            if got > hi:
+                raise Violation(
+                    "modified-once",
+                    f"{what}: {hi} successful call(s) (this one and those made by listeners meanwhile), listener {i} "
+                    f"was notified {got} times",
+                )
+            if got < lo:
+                raise Violation(
+                    "modified-fires",
+                    f"{what}: {lo} successful call(s) changed the contents (this one and those made by listeners "
+                    f"meanwhile), listener {i} was notified {got} time(s)",
+                )
+            # ... and after the change: what the listener saw last is what the list holds when the call returns
+            # (when nothing changed during a call made by a listener nothing can be said: the notifications of the
+            # enclosing call are still under way)
+            seen = ls["mirror"]
+            if lo and (len(seen) != len(model) or any(a is not b for a, b in zip(seen, model))):
+                raise Violation(
+                    "modified-fires-after-change",
+                    f"{what}: the call returned with {_Short(model)} but listener {i} was last notified when the list "
+                    f"held {_Short(seen)}",
+                )
+        if stack:
+            outer = stack[-1]
+            outer["calls"] += 1 + frame["calls"]
+            outer["changed"] += lo
+            outer["ok"] += hi
+        if not focus_cls or depth:
+            return  # the focus clauses speak of the state between calls: checked when the top-level call returned
+        f = real.focus
+        bad = None
+        if not model:
+            if f is not None:
+                bad = ("focus-none-iff-empty", f"{what}: empty list reports focus {f}")
+        elif not isinstance(f, int) or not 0 <= f < len(model):
+            bad = ("focus-in-range", f"{what} focus {fi_before}: focus now {f!r}, len {len(model)}")
+        if bad and not fstate["broken"]:
+            raise Violation(*bad)
+        if bad:
+            # an accepted call raised after listeners edited the list (recorded above) and left this behind: the
+            # history ends here
+            defer(*bad)
+            prof["stop"] = True
+            return
+        if fstate["exp"] is None:
+            return
+        if exc_m is not None:
+            if f != fi_before:
+                raise Violation("unchanged-on-failure", f"{what} failed but focus moved {fi_before} -> {f}")
+            return
+        if f not in fstate["exp"]:
+            msg = (
+                f"{what} with focus {fi_before}, {frame['calls']} call(s) made by listeners meanwhile: expected focus "
+                f"{sorted(fstate['exp'], key=repr)}, got {f}; now {_Short(model)}"
+            )
+            if frame["calls"]:
+                defer("focus-follows-item", msg)
+            else:
+                raise Violation("focus-follows-item", msg)
+        elif cls == "MFL" and not frame["calls"] and fi_before is not None and f is not None:
+            fc = fstate["fc"]
+            if (fi_before != f) != bool(fc) or (fc and fc[-1] != f):
+                raise Violation("focus-changed-callback", f"{what}: focus {fi_before} -> {f} but focus_changed fired {fc}")
+
+    if cls in ("ML", "MFL"):
+        real.set_modified_callback(dispatch)
+    elif cls == "REF":
+        real.cb = dispatch
+    else:
+        for i in range(len(listeners)):
+            urwid.connect_signal(real, "modified", lambda i=i: fire(i))
+    if cls == "MFL":
+        real.set_focus_changed_callback(lambda f: fstate["fc"].append(f))
+    for op in ops:
+        try:
+            call(op)
+        except _EndHistory:
+            break
+        if prof.get("stop"):
+            break
+        if cls == "SLW":
+            f = real.focus
+            if model and not (isinstance(f, int) and 0 <= f < len(model)):
+                raise Violation("focus-in-range", f"SimpleListWalker focus {f!r} with {len(model)} items after {op}")
+    return prof
+
+
+def check_reentrant(case):
+    """case: {"cls": ML|MFL|SLW|SFLW, "n", "focus", "handlers": [[op, ...], ...], "ops": [...]}"""
+    case = json.loads(json.dumps(case))
+    prof = _run_reentrant(case)
+    if prof["deferred"] is not None:
+        raise Violation(*prof["deferred"])
+
+
+_profile_cache = [None, None]
+
+
+def _reentrant_profile(case):
+    """what takes place in the history, from the reference list (no urwid involved)"""
+    key = json.dumps(case)
+    if _profile_cache[0] != key:
+        try:
+            prof = _run_reentrant(json.loads(key), cls="REF")
+        except Violation as v:  # must not pass for a finding (nor end a campaign silently): the harness is wrong
+            raise RuntimeError(f"the oracle rejects the reference list: {v.clause}: {v.message}") from None
+        _profile_cache[:] = [key, prof]
+    return _profile_cache[1]
+
+
+SUBS = {"single": check_single, "seq": check_seq, "legacy": check_legacy, "reentrant": check_reentrant}
 
 
 # ---------------------------------------------------------------------------------------------
@@ -903,6 +1208,75 @@ def _legacy_seq_classes(case):
     return out
 
 
+# --- histories with listeners that edit the list
+
+_REENTRANT_CLASSES = ["ML", "MFL", "SLW", "SFLW"]
+# one call of every kind (on a list of three items): changing the contents, leaving them as they are, failing
+_REENTRANT_OPS = [
+    ["set", 1], ["del", 0], ["del", -1], ["insert", 0], ["insert", 5], ["append"], ["extend", 2], ["iadd", 1],
+    ["imul", 2], ["imul", 0], ["pop", None], ["pop", 0], ["remove", 1], ["reverse"], ["sort", 1, None], ["clear"],
+    ["delslice", 0, 2, None], ["delslice", None, None, 2], ["setslice", 1, 2, None, 2], ["setslice", None, None, -1, 3],
+    ["setslice", None, None, None, 0],
+    ["extend", 0], ["delslice", 2, 1, None], ["sort", 0, None],
+    ["pop", 7], ["del", 9], ["set", -4], ["remove", None], ["setslice", None, None, 2, 1],
+]
+# who edits: the only listener, the first or the last of two, the middle one of three
+_REENTRANT_PLACES = [(0, 1), (0, 2), (1, 2), (1, 3)]
+
+
+def reentrant_pair_cases():
+    """every kind of call x every kind of edit made by a listener while it is notified of that call x the
+    editing listener's place among the listeners x the four list classes that take listeners"""
+    for cls in _REENTRANT_CLASSES:
+        for outer in _REENTRANT_OPS:
+            for nested in _REENTRANT_OPS:
+                for place, count in _REENTRANT_PLACES:
+                    handlers = [[] for _ in range(count)]
+                    handlers[place] = [nested]
+                    yield {"cls": cls, "n": 3, "focus": 1, "handlers": handlers, "ops": [outer]}
+
+
+# index arguments that do not depend on the focus (the profile of a case is taken from a list without one)
+_rel_nofocus = st.tuples(st.sampled_from(["m", "e"]), st.integers(-3, 3)).map(list)
+_reentrant_ops = _op_strategy(st.one_of(st.integers(-8, 8), st.integers(-8, 8), _rel_nofocus))
+_reentrant_case = st.fixed_dictionaries(
+    {
+        "cls": st.sampled_from(_REENTRANT_CLASSES),
+        "n": st.integers(0, 6),
+        "focus": st.one_of(st.none(), st.integers(0, 5)),
+        # the listeners in the order they are connected: passive ones and (at least one) with a script
+        "before": st.lists(st.lists(_reentrant_ops, max_size=3), max_size=2),
+        "editor": st.lists(_reentrant_ops, min_size=1, max_size=5),
+        "after": st.lists(st.lists(_reentrant_ops, max_size=3), max_size=2),
+        "ops": st.lists(_reentrant_ops, min_size=1, max_size=10),
+    }
+).map(
+    lambda d: {"cls": d["cls"], "n": d["n"], "focus": d["focus"], "handlers": [*d["before"], d["editor"], *d["after"]],
+               "ops": d["ops"]}
+)
+
+
+def _reentrant_nontrivial(case):
+    """an edit made by a listener went through and changed the contents"""
+    return _reentrant_profile(case)["nested_changed"] > 0
+
+
+def _reentrant_classes(case):
+    prof = _reentrant_profile(case)
+    out = [f"reentrant:{case['cls']}", f"reentrant:{len(case['handlers'])}-listeners"]
+    for key, label in (("nested_changed", "listener-edit-changes-contents"), ("nested_failed", "listener-edit-fails"),
+                       ("nested_nochange", "listener-edit-leaves-contents")):
+        if prof[key]:
+            out.append("reentrant:" + label)
+    if prof["depth"] >= 2:
+        out.append("reentrant:edit-inside-the-notification-of-an-edit")
+    if sum(1 for s in case["handlers"] if s) > 1:
+        out.append("reentrant:several-editing-listeners")
+    if any(not s for s in case["handlers"]):
+        out.append("reentrant:passive-listener-beside-the-editor")
+    return out
+
+
 def _initial_focus(case):
     """the "focus" field of a seq case as an index (None: leave the constructor's choice)"""
     n, f = case["n"], case.get("focus")
@@ -970,6 +1344,9 @@ def shard(ctx):
         ctx.sweep("legacy", legacy_single_cases(max_l), nontrivial=_legacy_single_nontrivial,
                   classify=_legacy_single_classes, exhaustive_name=f"single ops on the containers' other lists, children<= {max_l}")
     if ctx.failure is None:
+        ctx.sweep("reentrant", reentrant_pair_cases(), nontrivial=_reentrant_nontrivial, classify=_reentrant_classes,
+                  exhaustive_name="every kind of call x every kind of edit made by a listener during its notification")
+    if ctx.failure is None:
         sizes = ctx.scale((300, 1025), (300, 1025, 4099))
         ctx.sweep("single", big_single_cases(sizes), nontrivial=is_nontrivial_single, classify=_big_single_classes,
                   exhaustive_name=f"single ops at landmark positions, sizes {sizes}")
@@ -977,6 +1354,9 @@ def shard(ctx):
         ctx.given("seq", _seq_case, ctx.scale(1500, 20000), nontrivial=_seq_nontrivial, classify=_seq_classes)
     if ctx.failure is None:
         ctx.given("legacy", _legacy_seq, ctx.scale(400, 5000), nontrivial=_seq_nontrivial, classify=_legacy_seq_classes)
+    if ctx.failure is None:
+        ctx.given("reentrant", _reentrant_case, ctx.scale(500, 6000), nontrivial=_reentrant_nontrivial,
+                  classify=_reentrant_classes)
 
 
 # ---------------------------------------------------------------------------------------------
@@ -997,4 +1377,30 @@ def _known_legacy_empty_container(sub, case, v):
     )
 
 
-KNOWN = {"C16-legacy-list-empty-container": _known_legacy_empty_container}
+def _known_focus_stored_after_callback(sub, case, v):
+    """MonitoredFocusList (and SimpleFocusListWalker): every mutator computes the new focus, lets the inherited
+    mutator change the list AND call the modified callback, and stores the focus only then.  A listener that edits
+    the list (or moves the focus) from the callback works on the old focus index, and the enclosing call then
+    stores its stale value on top: the focus designates another item, or the range check of the focus setter
+    raises IndexError out of a call a list accepts (leaving the focus index of the inner edit, possibly out of
+    range).  Only findings recorded after an edit made from inside the callback, on a focus list, of these two
+    shapes."""
+    return (
+        sub == "reentrant"
+        and case["cls"] in ("MFL", "SFLW")
+        and _REENTRANT_MARK in v.message
+        and (
+            v.clause == "focus-follows-item"
+            or (v.clause == "same-errors" and "list accepts" in v.message and "focus index is out of range" in v.message)
+            # sort() reads its focus item at the stale index when called by a listener (IndexError), and looks it
+            # up after the callback ran (ValueError when a listener removed it)
+            or (v.clause == "same-errors" and "list accepts" in v.message and "['sort'," in v.message
+                and ("is not in list" in v.message or "list index out of range" in v.message))
+        )
+    )
+
+
+KNOWN = {
+    "C16-legacy-list-empty-container": _known_legacy_empty_container,
+    "C16-focus-stored-after-modified-callback": _known_focus_stored_after_callback,
+}
